@@ -19,7 +19,7 @@
 
      a[mask]  a[:, mask]  a[mask, :]  a[idx]  a[[i, j]]  a.take(idx, axis)  a[k]  a[k:]  a[:-1]
      np.isnan  ~  np.all  np.sum / np.nansum (axis = None, 0, 1)   * / - + on equal shapes, with a
-     scalar, and of an (n, k) with an (n, 1) array     pow(x, 2)    .T  .shape  .ndim  .size
+     scalar, and of an (n, k) with an (n, 1) array (a.reshape(-1, 1))     pow(x, 2)    .T  .shape  .ndim  .size
      .reshape(-1, 1)   np.broadcast_to(v, (n, k))   np.ones(w)   np.convolve(a, v, mode="valid")
      np.full(shape, x)   np.concatenate([a, b], axis)   np.array(..)   np.apply_along_axis
      np.nan_to_num  np.cumsum  np.argmax (of a boolean array)  np.mean  x.argsort()  np.argwhere
@@ -29,7 +29,7 @@
    an empty array, np.argmax of an empty array, np.apply_along_axis over an empty iteration
    dimension, x[-1] of an empty array, ..) evaluates to [VErr]: a restriction, never an extension --
    when [veval] yields a value, numpy yields the same one.  numpy's length-1 broadcasting is only
-   modelled for (n, k) op (n, 1).  A GenAgree lemma is only provable for a non-error value, so the
+   modelled for (n, k) op a.reshape(-1, 1).  A GenAgree lemma is only provable for a non-error value, so the
    guards of the source (`if arr.shape[1 - axis] == 0`, `if not self.is_defined: raise`,
    `_can_smooth`) are needed for the lemmas to hold.
 
@@ -126,6 +126,7 @@ Inductive vval :=
 | VM (nc : nat) (m : list (list xq))  (* 2-D float array of shape (length m, nc) *)
 | VBV (l : list bool)               (* 1-D boolean array *)
 | VIV (l : list nat)                (* 1-D array of non-negative ints (indexes, counts) *)
+| VCol (l : list xq)                (* the (n, 1) array a.reshape(-1, 1) of a 1-D array a *)
 | VRS (x : xq)                      (* np.sqrt(x'), where x = root_arg x' *)
 | VRV (l : list xq)                 (* element-wise roots *)
 | VL (l : list vval).               (* Python list / tuple *)
@@ -306,14 +307,20 @@ Definition v_bin (o : vop) (a b : vval) : vval :=
   | VV x, VV y => if List.length x =? List.length y then VV (map2 (op_x o) x y) else VErr
   | VM c x, VM c' y =>
       if List.length x =? List.length y then
-        if c =? c' then VM c (map2 (map2 (op_x o)) x y)
-        else if c' =? 1 then VM c (map2 (fun r s => map (fun u => op_x o u (vnth s 0)) r) x y)
-        else VErr
+        if c =? c' then VM c (map2 (map2 (op_x o)) x y) else VErr
       else VErr
+  | VM c x, VCol y =>     (* (n, c) op (n, 1): the column is broadcast along the rows *)
+      if List.length x =? List.length y
+      then VM c (map2 (fun r u => map (fun a => op_x o a u) r) x y) else VErr
   | VRS x, VRS y => match o with ODiv => VRS (xdiv x y) | _ => VErr end
   | VRV x, VRV y =>
       match o with
       | ODiv => if List.length x =? List.length y then VRV (map2 xdiv x y) else VErr
+      | _ => VErr
+      end
+  | VV x, VRV y =>        (* only the EMPTY float array (np.array([])) against an empty array of roots *)
+      match o with
+      | ODiv => if (List.length x =? 0) && (List.length y =? 0) then VRV [] else VErr
       | _ => VErr
       end
   | VV x, _ => match as_scalar b with Some y => VV (map (fun u => op_x o u y) x) | None => VErr end
@@ -405,14 +412,17 @@ Definition v_array (a : vval) : vval :=
   match a with
   | VV l => VV l
   | VM c m => VM c m
-  | VL [] => VV []
-  | VL (VV r :: t) =>
-      match opt_all (map row_of t) with
-      | Some rows => if forallb (fun r' => List.length r' =? List.length r) rows
-                     then VM (List.length r) (r :: rows) else VErr
-      | None => VErr
+  | VL l =>
+      match opt_all (map scal_of l) with
+      | Some xs => VV xs
+      | None =>
+          match opt_all (map row_of l) with
+          | Some rows =>
+              if forallb (fun r' => List.length r' =? List.length (hd [] rows)) rows
+              then VM (List.length (hd [] rows)) rows else VErr
+          | None => VErr
+          end
       end
-  | VL l => match opt_all (map scal_of l) with Some xs => VV xs | None => VErr end
   | _ => VErr
   end.
 
@@ -450,7 +460,7 @@ Definition v_reduce (f : list xq -> xq) (a : vval) (ax : option nat) : vval :=
   match a, ax with
   | VV l, None => VS (f l)
   | VV l, Some 0 => VS (f l)
-  | VM c m, None => VS (f (concat m))
+  | VM c m, None => VS (f (List.concat m))
   | VM c m, Some 1 => VV (map f m)
   | VM c m, Some 0 => VV (map f (cols_of c m))
   | _, _ => VErr
@@ -464,10 +474,7 @@ Definition v_ones (w : vval) : vval :=
 Definition v_conv (a v : vval) : vval :=
   match a, v with
   | VV x, VV y =>
-      match x, y with
-      | [], _ | _, [] => VErr
-      | _, _ => VV (conv_valid x y)
-      end
+      if (List.length x =? 0) || (List.length y =? 0) then VErr else VV (conv_valid x y)
   | _, _ => VErr
   end.
 
@@ -497,7 +504,7 @@ Definition v_broadcast (a shape : vval) : vval :=
   | _, _ => VErr
   end.
 Definition v_column (a : vval) : vval :=
-  match a with VV l => VM 1 (map (fun x => [x]) l) | _ => VErr end.
+  match a with VV l => VCol l | _ => VErr end.
 Definition v_T (a : vval) : vval :=
   match a with VM c m => VM (List.length m) (cols_of c m) | _ => VErr end.
 Definition v_sqrt (a : vval) : vval :=
@@ -512,14 +519,12 @@ Definition v_cumsum (a : vval) : vval :=
   match a with VV l => VV (cumsum_x (Fin 0%Q) l) | _ => VErr end.
 Definition v_argmax (a : vval) : vval :=
   match a with
-  | VBV [] => VErr
-  | VBV l => VZ (Z.of_nat (argmax_v l))
+  | VBV l => if List.length l =? 0 then VErr else VZ (Z.of_nat (argmax_v l))
   | _ => VErr
   end.
 Definition v_mean (a : vval) : vval :=
   match a with
-  | VV [] => VErr
-  | VV l => VS (xdiv (xsum l) (zq (Z.of_nat (List.length l))))
+  | VV l => if List.length l =? 0 then VErr else VS (xdiv (xsum l) (zq (Z.of_nat (List.length l))))
   | _ => VErr
   end.
 Definition v_argwhere (a : vval) : vval :=
@@ -538,21 +543,61 @@ Definition v_repeat (a n : vval) : vval :=
   end.
 Definition v_median (a : vval) : vval :=
   match a with
-  | VV [] => VErr
-  | VV l => if forallb is_fin l then VS (median_sorted (xq_sort l)) else VErr
+  | VV l => if (List.length l =? 0) || negb (forallb is_fin l) then VErr else VS (median_sorted (xq_sort l))
   | _ => VErr
   end.
 
 Definition v_if (c a b : vval) : vval :=
   match truthy c with Some true => a | Some false => b | None => VErr end.
 
+Definition v_not (a : vval) : vval :=
+  match truthy a with Some b => VB (negb b) | None => VErr end.
+(* Python's `a and b` / `a or b` return one of the operands *)
+Definition v_and (a b : vval) : vval :=
+  match truthy a with Some true => b | Some false => a | None => VErr end.
+Definition v_or (a b : vval) : vval :=
+  match truthy a with Some true => a | Some false => b | None => VErr end.
+Definition v_isnone (a : vval) : vval :=
+  match a with VNone => VB true | VErr => VErr | _ => VB false end.
+Definition v_listof (a : vval) : vval := match a with VL l => VL l | _ => VErr end.
+(* tuple(a) of a 1-D array: the sequence of its scalars (np.array of it is the array again) *)
+Definition v_tuple (a : vval) : vval := match a with VV l => VV l | VL l => VL l | _ => VErr end.
+Definition v_argsort (srt : list xq -> list nat) (a : vval) : vval :=
+  match a with VV l => VIV (srt l) | _ => VErr end.
+
+(* [body for v in src] *)
+Definition v_for (f : vval -> vval) (src : vval) : vval :=
+  match items_of src with
+  | Some its => v_list (map f its)
+  | None => VErr
+  end.
+(* [body for v1, v2 in zip(s1, s2)] (only for sequences of equal length) *)
+Definition v_zip (f : vval -> vval -> vval) (s1 s2 : vval) : vval :=
+  match items_of s1, items_of s2 with
+  | Some i1, Some i2 =>
+      if List.length i1 =? List.length i2
+      then v_list (map (fun p => f (fst p) (snd p)) (combine i1 i2))
+      else VErr
+  | _, _ => VErr
+  end.
+
 (* np.apply_along_axis(f, ax, arr): f on every 1-D slice along ax; the results must be scalars;
    numpy raises when an iteration dimension is empty *)
 Definition apply_slices (ax : vval) (arr : vval) : option (list (list xq)) :=
   match ax, arr with
-  | VZ 1, VM c m => match m with [] => None | _ => Some m end
-  | VZ 0, VM c m => match c with 0 => None | _ => Some (cols_of c m) end
+  | VZ 1, VM c m => if List.length m =? 0 then None else Some m
+  | VZ 0, VM c m => if c =? 0 then None else Some (cols_of c m)
   | _, _ => None
+  end.
+
+Definition v_apply (f : list xq -> vval) (ax arr : vval) : vval :=
+  match apply_slices ax arr with
+  | Some sl =>
+      match opt_all (map (fun r => scal_of (f r)) sl) with
+      | Some xs => VV xs
+      | None => VErr
+      end
+  | None => VErr
   end.
 
 (* ------------------------------------------------------------------------------------ *)
@@ -573,14 +618,10 @@ Fixpoint veval (E : venv) (e : vexp) {struct e} : vval :=
   | XRaise => VErr
   | XCall1 f a => e_call E f (veval E a)
   | XIf c a b => v_if (veval E c) (veval E a) (veval E b)
-  | XNot a => match truthy (veval E a) with Some b => VB (negb b) | None => VErr end
-  | XAnd a b =>
-      match truthy (veval E a) with
-      | Some true => veval E b | Some false => veval E a | None => VErr end
-  | XOr a b =>
-      match truthy (veval E a) with
-      | Some true => veval E a | Some false => veval E b | None => VErr end
-  | XIsNone a => match veval E a with VNone => VB true | VErr => VErr | _ => VB false end
+  | XNot a => v_not (veval E a)
+  | XAnd a b => v_and (veval E a) (veval E b)
+  | XOr a b => v_or (veval E a) (veval E b)
+  | XIsNone a => v_isnone (veval E a)
   | XCmp op a b => v_cmp op (veval E a) (veval E b)
   | XAdd a b => v_bin OAdd (veval E a) (veval E b)
   | XSub a b => v_bin OSub (veval E a) (veval E b)
@@ -590,21 +631,11 @@ Fixpoint veval (E : venv) (e : vexp) {struct e} : vval :=
   | XItem a k => v_item (veval E a) (veval E k)
   | XNil => VL []
   | XCons a l => v_cons (veval E a) (veval E l)
-  | XFor v src body =>
-      match items_of (veval E src) with
-      | Some its => v_list (map (fun x => veval (bind E v x) body) its)
-      | None => VErr
-      end
+  | XFor v src body => v_for (fun x => veval (bind E v x) body) (veval E src)
   | XZip v1 v2 s1 s2 body =>
-      match items_of (veval E s1), items_of (veval E s2) with
-      | Some i1, Some i2 =>
-          if List.length i1 =? List.length i2
-          then v_list (map (fun p => veval (bind (bind E v1 (fst p)) v2 (snd p)) body) (combine i1 i2))
-          else VErr
-      | _, _ => VErr
-      end
-  | XListOf a => match veval E a with VL l => VL l | _ => VErr end
-  | XTuple a => match veval E a with VV l => VV l | VL l => VL l | _ => VErr end
+      v_zip (fun x y => veval (bind (bind E v1 x) v2 y) body) (veval E s1) (veval E s2)
+  | XListOf a => v_listof (veval E a)
+  | XTuple a => v_tuple (veval E a)
   | XInit a => v_init (veval E a)
   | XFrom a k => v_from (veval E a) (veval E k)
   | XNdim a => v_ndim (veval E a)
@@ -624,14 +655,7 @@ Fixpoint veval (E : venv) (e : vexp) {struct e} : vval :=
   | XFull s x => v_full (veval E s) (veval E x)
   | XConcat l ax => v_concat (veval E l) (veval E ax)
   | XApply v body ax arr =>
-      match apply_slices (veval E ax) (veval E arr) with
-      | Some sl =>
-          match opt_all (map (fun r => scal_of (veval (bind E v (VV r)) body)) sl) with
-          | Some xs => VV xs
-          | None => VErr
-          end
-      | None => VErr
-      end
+      v_apply (fun r => veval (bind E v (VV r)) body) (veval E ax) (veval E arr)
   | XBroadcast a s => v_broadcast (veval E a) (veval E s)
   | XColumn a => v_column (veval E a)
   | XT a => v_T (veval E a)
@@ -640,7 +664,7 @@ Fixpoint veval (E : venv) (e : vexp) {struct e} : vval :=
   | XCumsum a => v_cumsum (veval E a)
   | XArgmax a => v_argmax (veval E a)
   | XMean a => v_mean (veval E a)
-  | XArgsort a => match veval E a with VV l => VIV (e_argsort E l) | _ => VErr end
+  | XArgsort a => v_argsort (e_argsort E) (veval E a)
   | XArgwhere a => v_argwhere (veval E a)
   | XSetdiff a b => v_setdiff (veval E a) (veval E b)
   | XAstypeInt a => v_astype_int (veval E a)
@@ -667,6 +691,7 @@ Fixpoint vagrees (v w : vval) {struct v} : Prop :=
   | VM c a, VM c' b => c = c' /\ mxeq_l a b
   | VBV a, VBV b => a = b
   | VIV a, VIV b => a = b
+  | VCol a, VCol b => vxeq_l a b
   | VRS a, VRS b => a =x= b
   | VRV a, VRV b => vxeq_l a b
   | VL a, VL b =>
